@@ -148,6 +148,18 @@ def cliroute(run):
     print(("PASS " if ok else "FAIL ") + f"CLI route: log joins +1 / yaml haplotig count +1 / haplotigs file missing -> flagged {({k: sorted(v) for k, v in flagged.items()})}")
 
 
+def focli(run):
+    from harness import c19
+    frs = [{"name": "a", "s": 1, "e": 5, "st": 1}, {"name": "a", "s": 4, "e": 9, "st": -1}, {"name": "b", "s": 2, "e": 3, "st": 1}]
+    sc = {"frs": frs, "cut": 1, "baits": [{"name": "a", "s": 5, "e": 6, "st": 1}], "fmt": "agp"}
+    traces = [c19.run_focli(dict(sc, tid=t)) for t in (1, 2, 3)]
+    bad = copy.deepcopy(traces)
+    bad[1]["reports"][0]["ovr"] += 1                      # reported overlap length
+    bad[2]["reports"][-1]["pos"] = "row 7"                # position label
+    jr = C.judge("IntervalsTrace", bad, run.dir, consts='N = 3 Names = {"a", "b"} MaxFrags = 3', spec="TraceSpec", label="st-focli")
+    expect("find-overlaps CLI: overlap length +1 / position label (model drift)", jr, [2, 3], kind="M")
+
+
 def clobber(run):
     from harness import cli_engine as E
     root = str(run.sub("cli"))
@@ -164,7 +176,7 @@ def clobber(run):
 def main():
     run = C.Run("selftest", "quick")
     try:
-        for fn in (lookup, ovr, cache, fasta, remap, reports, cliroute, clobber):
+        for fn in (lookup, ovr, cache, fasta, remap, reports, cliroute, focli, clobber):
             fn(run)
     finally:
         run.cleanup()
